@@ -14,7 +14,8 @@ import sys
 
 from . import envs
 
-_PATH = os.path.join(envs.VERIF, "known_findings.json")
+# OLVERIF_KF: a *stricter* file for experiments on scratch trees (e.g. a finding removed to see what it still explains)
+_PATH = os.environ.get("OLVERIF_KF") or os.path.join(envs.VERIF, "known_findings.json")
 _cache = None
 
 
@@ -356,6 +357,59 @@ def cpython_inlined_comprehension_cell_bug(tree):
                            for l in ast.walk(c))
             if captured and all_names.count(t) > inside.count(t):
                 return True
+    return False
+
+
+def cpython_sibling_inlined_comprehensions(tree):
+    """Reference-model defect no. 2 (CPython 3.12.1 and 3.13.0, measured; 3.10/3.11 are right): in one function, an inlined
+    comprehension A binds N and a *sibling* inlined comprehension B (neither inside the other) reads N as a global or free
+    variable -> `UnboundLocalError` (`lambda: [[x for x in [1]], [x for t in [2]]]`). Predicate on a tree (source or
+    emitted text): such a pair exists in some function scope."""
+    COMPS = (ast.ListComp, ast.SetComp, ast.DictComp)
+    SCOPES = (ast.Lambda, ast.FunctionDef, ast.AsyncFunctionDef, ast.GeneratorExp, ast.ClassDef)
+
+    def targets(c):
+        out = set()
+        for g in c.generators:
+            out.update(x.id for x in ast.walk(g.target) if isinstance(x, ast.Name))
+        return out
+
+    def scan(scope_body_nodes):
+        # comprehensions inlined into this scope: (node, names bound by it and by the comprehensions around it)
+        found = []
+        stack = [(n, frozenset()) for n in scope_body_nodes]
+        nested_scopes = []
+        while stack:
+            n, bound = stack.pop()
+            if isinstance(n, SCOPES):
+                nested_scopes.append(n)
+                continue
+            if isinstance(n, COMPS):
+                mine = bound | targets(n)
+                found.append((n, mine))
+                for ch in ast.iter_child_nodes(n):
+                    stack.append((ch, mine))
+                continue
+            for ch in ast.iter_child_nodes(n):
+                stack.append((ch, bound))
+        for a, abound in found:
+            ta = targets(a)
+            inside_a = {id(x) for x in ast.walk(a)}
+            for b, bbound in found:
+                if b is a or id(b) in inside_a or id(a) in {id(x) for x in ast.walk(b)}:
+                    continue
+                for x in ast.walk(b):
+                    if isinstance(x, ast.Name) and isinstance(x.ctx, ast.Load) and x.id in ta and x.id not in bbound:
+                        return True, nested_scopes
+        return False, nested_scopes
+
+    todo = [list(ast.iter_child_nodes(tree))]
+    while todo:
+        hit, nested = scan(todo.pop())
+        if hit:
+            return True
+        for sc in nested:
+            todo.append(list(ast.iter_child_nodes(sc)))
     return False
 
 
